@@ -2,7 +2,9 @@ package props
 
 import (
 	"fmt"
+	"strings"
 
+	"verifsim/gen"
 	"verifsim/harness"
 	"verifsim/world"
 )
@@ -24,8 +26,20 @@ func c08Compare(c *Ctx, o *opCase, d Delivery) {
 	harness.Pristine()
 	// "any reader that delivers the same byte stream": for the entry points that take a plain
 	// io.Reader the device may also be one whose Seek method fails (a pipe, a forward-only wrapper)
-	seekFail := !o.e.NeedSeek && c.L("dev:0:x").Chance(1, 4)
-	chunked, r := o.runSeek(c, d, seekFail)
+	x := c.L("dev:0:x")
+	seekFail := !o.e.NeedSeek && x.Chance(1, 4)
+	// ... or the rest of a larger stream: the caller has read (or skipped with Seek) what comes
+	// before - a container around the image, another image - and hands the reader over where it
+	// stands; what the reader delivers from there on is the same byte stream
+	var before []byte
+	seekTo := false
+	if !o.e.NeedSeek && !strings.HasPrefix(o.e.Name, "imagetype.") && x.Chance(1, 5) {
+		n := []int{1, 37, 512, 4095, 4096, 5000}[x.Intn(6)] + x.Intn(40)
+		before = gen.ScreenTIFF(x.Sub().Bytes(n))
+		seekTo = !seekFail && x.Bool()
+		c.Inc("fault:handed-over-midstream:configured")
+	}
+	chunked, r := o.runAt(c, d, seekFail, before, seekTo)
 	if c.PlanOnly {
 		return
 	}
@@ -54,7 +68,7 @@ func c08Compare(c *Ctx, o *opCase, d Delivery) {
 		c.Inc("probe:failing-input-compared")
 	}
 	if site, detail := resultDiff(whole, chunked); site != "" {
-		c.Fail("mismatch", o.e.Name, site, fmt.Sprintf("whole delivery vs %s (seek fails: %v): %s", d, seekFail, detail))
+		c.Fail("mismatch", o.e.Name, site, fmt.Sprintf("whole delivery vs %s (seek fails: %v, %d bytes taken from the stream before the call, by seek: %v): %s", d, seekFail, len(before), seekTo, detail))
 	}
 	c.Descf("whole: err=%s; chunked(%s): err=%s shortreads=%d calls=%d", whole.Err, d, chunked.Err, r.ShortReads, r.Calls)
 }
